@@ -21,6 +21,8 @@ from sfc_models.models import Model, Country, EconomicObject
 from sfc_models.sector import Sector
 
 TARGET = "x = 0.5*LX + G\nd = x + G\nLX = x(k-1)\nMaxTime = 2\nErr_Tolerance = 0.01"
+TARGET_FN = "x = 0.5*LX + fn(G)\nd = fn(x)\nLX = x(k-1)\nMaxTime = 2\nErr_Tolerance = 0.01"
+TARGETS = {"plain": (TARGET, {}), "user-function": (TARGET_FN, {"fn": lambda v: 2 * v + 1})}
 OTHER = "a = 0.5*a + 3\nb = a + y\ny = 2\nx = 7\nMaxTime = 2"
 OPS = ['other-model', 'other-solver', 'logs-on', 'logs-off', 'trace', 're-solve', 're-parse', 'target-first']
 
@@ -47,22 +49,28 @@ def target_solve(es, g, x0):
     return es
 
 
-def history_case(hist):
+def history_case(item):
+    hist, tname = item
+    TARGET, FUNCS = TARGETS[tname]
     D = Driver(timeout_ms=15000, max_paths=4000, max_seconds=120)
     g = [z3.Real('g1'), z3.Real('g2')]
     x0 = z3.Real('x0')
     for v in g + [x0]:
         D.assume(v >= -50, v <= 50)
-    out = {'hist': hist, 'viol': None, 'unknown': 0, 'solved': 0}
+    out = {'hist': hist, 'target': tname, 'viol': None, 'unknown': 0, 'solved': 0}
     scratch = tempfile.mkdtemp(prefix='sfcverif_c17_')
 
     def fresh_reference():
         es = EquationSolver(TARGET, run_equation_reduction=True)
+        for fname, fobj in FUNCS.items():
+            es.AddFunction(fname, fobj)
         return target_solve(es, g, x0)
 
     def path():
         Logger.cleanup()
         es = EquationSolver(run_equation_reduction=True)
+        for fname, fobj in FUNCS.items():
+            es.AddFunction(fname, fobj)
         resolve = False
         parsed = False
         for op in hist:
@@ -159,7 +167,9 @@ def histories(tier):
             if len(set(h)) < len(h):
                 continue
             out.append(h)
-    return out
+    items = [(h, 'plain') for h in out]
+    items += [(h, 'user-function') for h in out if len(h) <= (1 if tier == 'quick' else 2)]
+    return items
 
 
 REPLAY = '''
@@ -167,8 +177,9 @@ import sys, os, tempfile, shutil
 from fractions import Fraction as F
 from sfc_models.equation_solver import EquationSolver
 from sfc_models.utils import Logger
-from vf.props.c17 import TARGET, OTHER, build_other_model
+from vf.props.c17 import TARGETS, OTHER, build_other_model
 hist = %(hist)r
+TARGET, FUNCS = TARGETS[%(tname)r]
 vals = {k: float(F(v)) for k, v in %(vals)r.items()}
 def run(es):
     es.Parser.Exogenous.append(('G', [0.0, vals['g1'], vals['g2']]))
@@ -177,6 +188,7 @@ def run(es):
     for step in (1, 2): es.SolveStep(step)
 scratch = tempfile.mkdtemp(prefix='sfcverif_c17r_')
 es = EquationSolver(run_equation_reduction=True); resolve = False
+for f_, o_ in FUNCS.items(): es.AddFunction(f_, o_)
 for op in hist:
     if op == 'other-model': build_other_model()
     elif op == 'other-solver': EquationSolver(OTHER).SolveEquation()
@@ -185,10 +197,17 @@ for op in hist:
     elif op == 'trace': es.TraceStep = 1
     elif op == 're-solve': resolve = True
     elif op == 're-parse': es.ParseString(OTHER); es.SolveEquation()
-es.ParseString(TARGET); run(es)
-if resolve: run(es)
+try:
+    es.ParseString(TARGET); run(es)
+    if resolve: run(es)
+except ValueError as e:
+    print('value error', e); sys.exit(0)
+except Exception as e:
+    print('solving after history %%r raises %%r' %% (hist, e)); sys.exit(1)
 Logger.cleanup(); shutil.rmtree(scratch, ignore_errors=True)
-ref = EquationSolver(TARGET, run_equation_reduction=True); run(ref)
+ref = EquationSolver(TARGET, run_equation_reduction=True)
+for f_, o_ in FUNCS.items(): ref.AddFunction(f_, o_)
+run(ref)
 a = {v: list(es.TimeSeries[v]) for v in es.TimeSeries}; b = {v: list(ref.TimeSeries[v]) for v in ref.TimeSeries}
 print('after history %%r:' %% (hist,), a); print('history-free      :', b)
 sys.exit(1 if a != b else 0)
@@ -221,7 +240,7 @@ def run(tier, seed):
                EquationSolver._SolveStep, EquationSolver.SolveEquation, sfc_models.utils.Logger.__init__, sfc_models.utils.Logger.cleanup,
                sfc_models.models.EconomicObject.__init__, sfc_models.models.Model.main)
     hs = histories(tier)
-    chk.bounds = {'histories': '%d sequences of <= 3 distinct operations from %r around the target solve' % (len(hs), [o for o in OPS if o != 'target-first']),
+    chk.bounds = {'histories': '%d (history, target block) pairs: sequences of <= 3 distinct operations from %r around the target solve' % (len(hs), [o for o in OPS if o != 'target-first']),
                   'target': TARGET.replace('\n', ' ; '), 'numeric domain': 'exogenous G(1), G(2) and x(0) symbolic reals in [-50, 50]; 2 periods',
                   'text clause': 'FinalEquations of 3 zoo topologies at object-ID offsets 0, 1, 9, 10, 123, 99999'}
     chk.assumptions = ['log files go to a scratch directory outside /repo and /verif (removed afterwards)', 'TimeSeriesHolder.GenerateCSVtext stubbed to "" in E2 runs']
@@ -235,14 +254,16 @@ def run(tier, seed):
         chk.solver_s += o['solver_s']
         chk.queries += o['queries']
         chk.count('solved_paths', o['solved'])
-        what = 'history %r then target solve == history-free target solve' % (o['hist'],)
+        what = 'history %r then target solve (%s block) == history-free target solve' % (o['hist'], o['target'])
         if not o['exhaustive'] or o['unknown'] or o['dunknown']:
             chk.ob('unknown', what)
         else:
-            chk.ob('sat' if o['viol'] else 'unsat', what, distinct=tuple(o['hist']))
+            chk.ob('sat' if o['viol'] else 'unsat', what, distinct=tuple(o['hist']) + (o['target'],))
         if o['viol']:
             cls = 're-parse-remnants' if 're-parse' in o['hist'] and ('reported variables' in o['viol']['why'] or 'KeyError' in o['viol']['why']) else 'history:%r' % (o['hist'],)
-            chk.violation(cls, what + ': ' + o['viol']['why'], REPLAY % dict(hist=o['hist'], vals=o['viol']['vals']))
+            if o['target'] != 'plain' and 'trace' in o['hist'] and 'raises' in o['viol']['why']:
+                cls = 'trace-with-user-function-crashes'
+            chk.violation(cls, what + ': ' + o['viol']['why'], REPLAY % dict(hist=o['hist'], vals=o['viol']['vals'], tname=o['target']))
         if len(chk.samples) < 10:
             chk.sample({'history': o['hist'], 'paths': o['paths'], 'verdict': 'identical result terms on every path' if not o['viol'] else o['viol']['why']})
     chk.witness(chk.counters.get('solved_paths', 0) > 0, 'target solve returns on some path')
